@@ -152,7 +152,7 @@ CLAIMED = {
         'value (C06_blob_roundtrip: every blob kind at once; the format\'s 16-bit limits are the width hypotheses); the '
         'layout regenerated on every run from gitypelib-internal.h by a compiled prober has all members inside their '
         'struct, pairwise non-overlapping, and all blob sizes multiples of four (C06_layout_wellformed); blobs laid from an '
-        'aligned start stay aligned (C06_offsets_aligned). THE SHARING KEY of C arrays (Model/C06K.v: girnode.c serialize_type, tied to the real function through a driver that includes girnode.c): two arrays with the same key have element types with the same key and the same ArrayTypeBlob fields - pointer, zero_terminated, has_length, has_size, the one dimension - for every element key, index and size (C06_array_key_sound, for the blob as repaired in b101e79; C06_array_key_refuted_before_fix is the witness of the defect: an array with a length and a fixed size shares the key of the array with the length alone and claimed a size). PARTIAL: the whole-file statement decode(compile g) = api_of g '
+        'aligned start stay aligned (C06_offsets_aligned). THE SHARING KEY of C arrays (Model/C06K.v: girnode.c serialize_type, tied to the real function through a driver that includes girnode.c): two arrays with the same key have element types with the same key and the same ArrayTypeBlob fields - pointer, zero_terminated, has_length, has_size, the one dimension - for every element key, index and size (C06_array_key_sound, for the blob as repaired in b101e79; C06_array_key_refuted_before_fix is the witness of the defect: an array with a length and a fixed size shares the key of the array with the length alone and claimed a size); key_carray is compared inside Coq with the real serialize_type on 400 (thorough 6000) arrays, blob_carray with what the API reports for every C-array parameter of the generated namespaces. PARTIAL: the whole-file statement decode(compile g) = api_of g '
         'is not proved (string pool, type de-duplication, directory construction of girnode.c/girmodule.c are not '
         'modelled as an encoder); it is established per run by translation validation: generated GIR documents are '
         'compiled by the real g-ir-compiler (accepted silently, deterministic bytes), decoded from the bytes by the '
